@@ -63,6 +63,8 @@ prop("C08", "exploration",
           "thorough": {"checks": 1, "timeout": 900}},
          {"test": "TestC08_Concurrent", "quick": {"checks": 4000, "shards": 4, "timeout": 300},
           "thorough": {"checks": 40000, "shards": 8, "timeout": 2400}},
+         {"test": "TestC08_ClientDiscovery", "quick": {"checks": 1500, "shards": 4, "timeout": 300},
+          "thorough": {"checks": 30000, "shards": 16, "timeout": 2400}},
      ],
      ["removals only name regions that were accepted into the cache at some point"])
 
